@@ -190,8 +190,11 @@ def main(path):
                 return {"int": 0, "bool": False, "bytes": b"", "str": "", "real": 0.0}.get(_ret)
             return decode(None, _ret, ns, log, guards_cb)
         setattr(owner, parts[-1], stub)
+    fixups = contract.get("replay") or {}
     for vname, decl in contract["vars"].items():
         ns[vname] = decode(model.get(vname), decl, ns, log, guards_cb, vname)
+        if vname in fixups:
+            ns[vname] = ns[fixups[vname]](ns[vname])
     out = {"reproduced": False, "failed": [], "inputs": {k: repr(ns[k])[:200] for k in contract["vars"]}}
     for r in contract["requires"]:
         try:
